@@ -777,3 +777,69 @@ def container_allocators(facts):
     if n_ok < 50 or nf < 10:
         out.append(ob("container.allocator-passed", "anchor", "", "unrecognised", "only %d constructions / %d fields recognised in the custom-allocator instantiation" % (n_ok, nf), ""))
     return out
+
+
+RESET_EXEMPT = {
+    ("datasketches::ebpps_sketch", "tmp_"): "scratch sample, re-initialised before each use",
+    ("datasketches::ebpps_sketch", "k_"): "configuration: merge lowers k to the smaller operand's k and reset keeps the configured size",
+    ("datasketches::var_opt_sketch", "k_"): "only the union's gadget decreases k; the union's reset rebuilds the gadget",
+    ("datasketches::optional", ""): "placement storage",
+}
+
+
+def reset_completeness(facts, records=None):
+    """every field that some mutator of a class modifies is re-initialised by the class's reset() (directly, through a member's own
+    reset / assignment, or through an own helper it calls); reviewed exceptions are configuration fields.  A state field that
+    survives reset() (a cache of the last hash, a counter, a flag) makes a reused object differ from a fresh one."""
+    import collections
+    import cowrite
+    from astu import functions_by
+    fns = functions_by(facts)
+    byrec = collections.defaultdict(list)
+    for p, fn in fns.items():
+        if fn.get("rect"):
+            byrec[fn["rect"]].append(fn)
+    out = []
+    nrec = 0
+    for rec, fl in sorted(byrec.items()):
+        if records is not None and short(rec) not in records:
+            continue
+        resets = [f for f in fl if f["name"] == "reset" and f["kind"] == "method" and f.get("body") is not None]
+        if not resets:
+            continue
+
+        def writes(fn, depth=0, seen=None):
+            seen = seen if seen is not None else set()
+            W = {f for (o, f) in cowrite.direct_writes(fn) if o == "this"}
+            if depth < 3:
+                def v(n):
+                    if n.get("k") == "Call" and n.get("member") and strip_all(n.get("obj") or {}).get("k") == "This":
+                        for g in fl:
+                            if g["name"] == n.get("cname") and g["pat"] not in seen and g.get("body") is not None:
+                                seen.add(g["pat"])
+                                W.update(writes(g, depth + 1, seen))
+                walk(fn["body"], v)
+            return W
+        Wr = set()
+        for r in resets:
+            Wr |= writes(r)
+        if not Wr:
+            continue
+        nrec += 1
+        Wm = collections.defaultdict(set)
+        for f in fl:
+            if f["kind"] != "method" or f.get("special") or f["name"] == "reset" or f.get("const") or f.get("static") or f.get("body") is None:
+                continue
+            for w in writes(f):
+                Wm[w].add(f["name"])
+        for w in sorted(Wm):
+            key = "%s::reset:resets-%s" % (short(rec), w or "storage")
+            if w in Wr:
+                out.append(ob("lifecycle.reset-complete", key, resets[0]["pat"], "discharged", "modified by %s, re-initialised by reset()" % ", ".join(sorted(Wm[w])[:3]), resets[0]["qname"]))
+            elif (rec, w) in RESET_EXEMPT:
+                out.append(ob("lifecycle.reset-complete", key, resets[0]["pat"], "info", "reviewed exception: " + RESET_EXEMPT[(rec, w)], resets[0]["qname"]))
+            else:
+                out.append(ob("lifecycle.reset-complete", key, resets[0]["pat"], "violated", "field `%s` is modified by %s but reset() never re-initialises it: after reset() the object still carries state from before (a reused sketch differs from a fresh one)" % (w, ", ".join(sorted(Wm[w])[:3])), resets[0]["qname"]))
+    if records is None and nrec < 8:
+        out.append(ob("lifecycle.reset-complete", "anchor", "", "unrecognised", "only %d classes with reset() analysed" % nrec, ""))
+    return out
